@@ -109,21 +109,26 @@ def holdsC05Headers (origin : List (Bytes × Bytes)) (ruleResp : List (Bytes × 
 /-- C04 at system level, per contact: an external destination never sees any of the three
     internal headers; an internal one (rule flagged internal AND secrets configured) always gets a
     configured secret, a request id and the originating-IP header -/
-def holdsC04Contact (internal : Bool) (secrets : List Bytes) (c : ContactObs) : Bool :=
+def holdsC04Contact (internal : Bool) (secrets clientSecret : List Bytes) (c : ContactObs) : Bool :=
   let sec := headerValues c.headers b!"Richie-Routing-Secret"
   let rid := headerValues c.headers b!"Richie-Request-ID"
   let ip := headerValues c.headers b!"Richie-Originating-IP"
   if internal then
-    (match sec with | [v] => secrets.contains v | _ => false) &&
-    (match rid with | [v] => v ≠ [] | _ => false) && ip.length == 1
+    -- "the first configured secret unless the client supplied a valid one"
+    (if clientSecret.isEmpty then sec == secrets.head?.toList
+     else if clientSecret.all secrets.contains then sec == clientSecret     -- the client's own valid secret(s), as sent
+     else !sec.isEmpty && sec.all secrets.contains) &&
+    -- (a client holding a valid secret may send the other two itself, also on several lines: they pass as sent)
+    !rid.isEmpty && rid.all (· ≠ []) && !ip.isEmpty
   else sec.isEmpty && rid.isEmpty && ip.isEmpty
 
-/-- every answered contact, classified by the rule whose destination host it is -/
-def holdsC04 (ruleOfHost : Bytes → Option Bool) (secretsNil : Bool) (secrets : List Bytes)
+/-- every answered contact, classified by the rule whose destination host it is; `clientSecret` =
+    the Richie-Routing-Secret values of the client's request -/
+def holdsC04 (ruleOfHost : Bytes → Option Bool) (secretsNil : Bool) (secrets clientSecret : List Bytes)
     (cs : List ContactObs) : Bool :=
   cs.all fun c =>
     match ruleOfHost c.host with
-    | some internalFlag => holdsC04Contact (internalFlag && !secretsNil) secrets c
+    | some internalFlag => holdsC04Contact (internalFlag && !secretsNil) secrets clientSecret c
     | none => true
 
 /-- C20: with and without the copy rules the client sees the same response -/
